@@ -239,7 +239,10 @@ def run_case(idx, rng, tier, ctx):
             hd, inter, log, nsteps, no_pu_first = run_history(text, rng, rs, check_intermediate=True)
         except Exception as e:
             kind = type(e).__name__ + ('-timeout' if 'timeout' in str(e) else '')
-            res['violations'].append({'key': f'regex:history-exception:{kind}:{attribution(src)}',
+            hkey = f'regex:history-exception:{kind}:{attribution(src)}'
+            if 'timeout' in str(e) and src['risky'] & STRUCTURAL:
+                hkey = f'regex:unit-structure:{attribution(src)}'       # catastrophic backtracking of the unit patterns
+            res['violations'].append({'key': hkey,
                                       'msg': f'incremental REGEX history raised {type(e).__name__}: {str(e)[:200]}',
                                       'witness': dict(witness_base, traceback=traceback.format_exc()[-1500:])})
             continue
